@@ -5,3 +5,5 @@ open Photon.RangeSplit
 #print axioms C15_aligned_enclose
 #print axioms C15_power2_eq
 #print axioms C15_tiling_power2
+#print axioms C15_classification
+#print axioms C15_wrap_witness
